@@ -29,7 +29,7 @@ fn main() {
         i += 1;
     }
     // keep panic output of caught panics out of the way; the payload is recorded by `guard`
-    std::panic::set_hook(Box::new(|_| {}));
+    if std::env::var("FV_DEBUG_PANIC").is_ok() { std::panic::set_hook(Box::new(|i| eprintln!("{i}"))); } else { std::panic::set_hook(Box::new(|_| {})); }
     let mut c = ctx::Ctx::new(&out, tier, seed, scale);
     if !streams::dispatch(&stream, &mut c) {
         eprintln!("unknown stream {stream:?}; known: {:?}", streams::STREAMS);
